@@ -118,7 +118,7 @@ def scenarios(tier, seed):
                             out.append(dict(family="lgbn/predict", mode="predict", n=n, edges=edges, labels=lab, missing=list(miss), hashseed=k % 2,
                                             budget_s=60))
             if n >= 2:
-                for op in ("marginalize", "reduce", "copy"):
+                for op in ("marginalize", "reduce", "copy", "precision_seq"):
                     k += 1
                     out.append(dict(family=f"gaussian/{op}", mode="gauss", op=op, n=n, edges=edges, labels=k % len(LABELS), which=k, hashseed=k % 2, budget_s=60))
     return out
@@ -275,6 +275,34 @@ def run(desc, M):
             M.eq(g2.mean[i][0], mc[i], "reduce = Gaussian conditional mean")
             for j, t in enumerate(keep):
                 M.eq(g2.covariance[i][j], cc[i][j], "reduce = Gaussian conditional covariance")
+    elif op == "precision_seq":
+        # history: precision computed first (cached), then marginalise / reduce / copy; the derived objects' precision must be the inverse of
+        # THEIR covariance (K * Sigma = I), for in-place and out-of-place forms
+        K0 = g.precision_matrix
+        for i in range(n):
+            for j in range(n):
+                acc = M.const(0)
+                for t in range(n):
+                    acc = acc + K0[i][t] * cov[t][j]
+                M.eq(acc, 1 if i == j else 0, "precision matrix is the inverse of the covariance")
+        drop = [k % n]
+        keep = [v for v in range(n) if v not in drop]
+        for variant in ("out", "copy", "inplace"):
+            if variant == "out":
+                g2 = g.marginalize([lab[v] for v in drop], inplace=False)
+            elif variant == "copy":
+                g2 = g.copy()
+                g2.marginalize([lab[v] for v in drop])
+            else:
+                g2 = g
+                g2.marginalize([lab[v] for v in drop])
+            K2 = g2.precision_matrix
+            for i in range(len(keep)):
+                for j in range(len(keep)):
+                    acc = M.const(0)
+                    for t in range(len(keep)):
+                        acc = acc + K2[i][t] * cov[keep[t]][keep[j]]
+                    M.eq(acc, 1 if i == j else 0, f"precision of a marginal ({variant}) is the inverse of the marginal covariance (no stale cache)")
     else:
         g2 = g.copy()
         M.check(list(g2.variables) == list(g.variables), "copy keeps the variables")
